@@ -5,7 +5,7 @@
 From Coq Require Extraction.
 From Coq Require Import ExtrOcamlBasic ExtrOcamlNatBigInt ExtrOcamlZBigInt.
 From Coq Require Import ZArith.
-From Sfs Require Import Index ArrayM Scalar Spectrum Project Create SampleParse Stat Npy Text Stream.
+From Sfs Require Import Index ArrayM Scalar Spectrum Project Create SampleParse Stat Npy Text Container Stream.
 
 Extraction Blacklist List String Int Big_int_Z.
 
@@ -37,7 +37,7 @@ Extraction "model.ml"
   Spectrum.marginalize Spectrum.keep_to_remove Spectrum.normalize Spectrum.mask_monomorphic
   Spectrum.folded_cells Spectrum.fold0 Spectrum.mirror_arr Spectrum.spectrum_sum Spectrum.marg_spec
   Project.binomN Project.hyp Project.project Project.project_spec
-  Create.classify Create.build_map Create.map_shape Create.build_reader Create.read_site
+  Create.classify Create.classify_v0 Container.vcf_field_gt Container.bcf_field_gt Container.render_gt Container.hts_encode Container.parse_gt Create.build_map Create.map_shape Create.build_reader Create.read_site
   SampleParse.parse_samples_file SampleParse.parse_samples_inline
   Create.init_sstate Create.create_run Create.rec_counts Create.rec_complete
   Stat.calculate Stat.view_run
